@@ -43,14 +43,6 @@ theorem exec_seq (fuel : Nat) (a b : St) (s : State F) :
       if (exec fuel a s).ctl = .run then exec fuel b (exec fuel a s) else exec fuel a s := by
   rw [exec]
 
-theorem exec_seq_run (fuel : Nat) (a b : St) (s : State F) (h : (exec fuel a s).ctl = .run) :
-    exec fuel (.seq a b) s = exec fuel b (exec fuel a s) := by
-  rw [exec_seq, if_pos h]
-
-theorem exec_seq_stop (fuel : Nat) (a b : St) (s : State F) (h : (exec fuel a s).ctl ≠ .run) :
-    exec fuel (.seq a b) s = exec fuel a s := by
-  rw [exec_seq, if_neg h]
-
 theorem exec_ite (fuel : Nat) (c : BE) (t f : St) (s : State F) (hok : c.ok s = true) :
     exec fuel (.ite c t f) s = if c.eval s then exec fuel t s else exec fuel f s := by
   rw [exec]; simp [hok]
@@ -261,25 +253,8 @@ def pixelBody : St :=
   (.seq (bTgt N)
   (bCand N))))
 
-def bPrologue : St :=
-  (.seq (.setI (N.nm .start) (.bin .sub (.var (N.nm .width)) (.lit 1)))
-  (.seq (.setI (N.nm .end_) (.lit (-1)))
-  (.seq (.setI (N.nm .step) (.lit (-1)))
-  (.seq (.ite (.var (N.nm .isForward))
-    (.seq (.setI (N.nm .start) (.lit 0))
-    (.seq (.setI (N.nm .end_) (.var (N.nm .width)))
-    (.setI (N.nm .step) (.lit 1))))
-    .skip)
-  (.setI (N.nm .nValues) (.dim N.vals 0))))))
-
-def sweepLoop : St :=
-  .forRange (N.nm .pixel) (.var (N.nm .start)) (.var (N.nm .end_)) (.var (N.nm .step)) (pixelBody N)
-
-end template
-
-/-- `_process_proximity_line` with the names of `N` (same statements as `Gen.IL.proximityLine.body`,
-    re-associated: prologue; loop; return) -/
-def lineBody (N : Names) : St :=
+/-- `start`, `end`, `step`, `n_values`, then `tail` -/
+def prologueThen (tail : St) : St :=
   (.seq (.setI (N.nm .start) (.bin .sub (.var (N.nm .width)) (.lit 1)))
   (.seq (.setI (N.nm .end_) (.lit (-1)))
   (.seq (.setI (N.nm .step) (.lit (-1)))
@@ -289,8 +264,16 @@ def lineBody (N : Names) : St :=
     (.setI (N.nm .step) (.lit 1))))
     .skip)
   (.seq (.setI (N.nm .nValues) (.dim N.vals 0))
-  (.seq (sweepLoop N)
-  .ret))))))
+  tail)))))
+
+def sweepLoop : St :=
+  .forRange (N.nm .pixel) (.var (N.nm .start)) (.var (N.nm .end_)) (.var (N.nm .step)) (pixelBody N)
+
+end template
+
+/-- `_process_proximity_line` with the names of `N` (same statements as `Gen.IL.proximityLine.body`,
+    prologue; loop; return) -/
+def lineBody (N : Names) : St := prologueThen N (.seq (sweepLoop N) .ret)
 
 /-- the stand-alone program uses the plain names -/
 def N0 : Names := Names.pfx "" "source_line" "xs" "ys" "values"
